@@ -49,7 +49,7 @@ func (x *gen) length(s string, lo, hi float64) float64 {
 	return g.Length(x.t, x.lbl(s), lo*x.o.S, hi*x.o.S)
 }
 func (x *gen) coord(s string, r float64) float64 { return g.Coord(x.t, x.lbl(s), r*x.o.S) }
-func (x *gen) unit(s string) float64             { return rapid.Float64Range(0, 1).Draw(x.t, x.lbl(s)) }
+func (x *gen) unit(s string) float64             { return g.F(0, 1).Draw(x.t, x.lbl(s)) }
 func (x *gen) intr(s string, lo, hi int) int     { return rapid.IntRange(lo, hi).Draw(x.t, x.lbl(s)) }
 func (x *gen) pick(s string, opts []string) string {
 	return rapid.SampledFrom(opts).Draw(x.t, x.lbl(s))
